@@ -937,5 +937,6 @@ func runC14(o *Out, rng *RNG, tier string, replay string) {
 	// of C15, two of them with the critical order forced by an outside holder
 	if replay == "" {
 		c15RunnerProbe(o, rng.Fork(), 6)
+		c14LateRegistrationProbe(o)
 	}
 }
